@@ -280,10 +280,16 @@ pub fn gen_counter(r: &mut Xo, cfg: &MCfg) -> Option<Counter> {
         return None;
     }
     let op = *r.pick(&[Operation::Increment, Operation::Decrement, Operation::Decrement, Operation::Set]);
-    Some(match r.below(3) {
-        0 => Counter::new(op),
-        1 => Counter::new_dist(op, gen_dist(r, cfg, DistUse::CounterValue)),
-        _ => Counter::new_copy(op),
+    Some(match r.below(7) {
+        0 | 1 => Counter::new(op),
+        2 | 3 => Counter::new_dist(op, gen_dist(r, cfg, DistUse::CounterValue)),
+        4 | 5 => Counter::new_copy(op),
+        // no constructor builds this, the fields are public: copy supersedes the distribution
+        _ => Counter {
+            operation: op,
+            dist: Some(gen_dist(r, cfg, DistUse::CounterValue)),
+            copy: true,
+        },
     })
 }
 
@@ -413,6 +419,63 @@ pub fn gen_machine(r: &mut Xo, cfg: &MCfg) -> Machine {
         if let Ok(m) = Machine::new(app, mpf, abm, mbf, states) {
             return m;
         }
+    }
+}
+
+/// Validation does not constrain `start` and `max` of a distribution: a validated machine may carry
+/// start > max, negative, infinite or NaN bounds. Rewrites some of the machine's distributions that
+/// way (the result is validated again; the original is returned if it does not pass).
+pub fn hostile_bounds(r: &mut Xo, m: &Machine) -> (Machine, usize) {
+    const START: [f64; 10] = [1.0, 7.5, 1.0e6, 1.0e30, f64::MAX, f64::INFINITY, f64::NEG_INFINITY, f64::NAN, -1.0, -1.0e30];
+    const MAX: [f64; 10] = [0.5, 1.0, 3.0, 1.0e-300, f64::MIN_POSITIVE, f64::INFINITY, f64::NEG_INFINITY, f64::NAN, -1.0, f64::MAX];
+    let mut changed = 0usize;
+    let mut twist = |r: &mut Xo, d: &mut Dist| {
+        if r.chance(1, 2) {
+            match r.below(3) {
+                0 => d.start = *r.pick(&START),
+                1 => d.max = *r.pick(&MAX),
+                _ => {
+                    d.start = *r.pick(&START);
+                    d.max = *r.pick(&MAX);
+                }
+            }
+            changed += 1;
+        }
+    };
+    let mut states = m.states.clone();
+    for s in states.iter_mut() {
+        match &mut s.action {
+            Some(Action::SendPadding { timeout, limit, .. }) => {
+                twist(r, timeout);
+                if let Some(l) = limit {
+                    twist(r, l)
+                }
+            }
+            Some(Action::BlockOutgoing { timeout, duration, limit, .. }) => {
+                twist(r, timeout);
+                twist(r, duration);
+                if let Some(l) = limit {
+                    twist(r, l)
+                }
+            }
+            Some(Action::UpdateTimer { duration, limit, .. }) => {
+                twist(r, duration);
+                if let Some(l) = limit {
+                    twist(r, l)
+                }
+            }
+            _ => {}
+        }
+        let (a, b) = &mut s.counter;
+        for c in [a, b].into_iter().flatten() {
+            if let Some(d) = &mut c.dist {
+                twist(r, d)
+            }
+        }
+    }
+    match Machine::new(m.allowed_padding_packets, m.max_padding_frac, m.allowed_blocked_microsec, m.max_blocking_frac, states) {
+        Ok(nm) => (nm, changed),
+        Err(_) => (m.clone(), 0),
     }
 }
 
